@@ -215,6 +215,13 @@ var Features = []Feature{
 		t.PK, t.WithoutRowID, t.Strict = []string{"id"}, true, true
 	}},
 	{Name: "pk_autoincrement", Group: "pk", Apply: func(d *DB) { t := d.Table("t"); t.PK = []string{"id"}; t.Col("id").AutoInc = true }},
+	// the AUTOINCREMENT key is not the first column: an INTEGER column is declared before it.
+	{Name: "pk_autoincrement_after_integer_column", Group: "pk", Apply: func(d *DB) {
+		t := d.Table("t")
+		t.Cols = append([]Col{{Name: "z0", Type: "integer"}}, t.Cols...)
+		t.PK = []string{"id"}
+		t.Col("id").AutoInc = true
+	}},
 	{Name: "idx_a", Apply: func(d *DB) { t := d.Table("t"); t.Idx = append(t.Idx, Idx{Name: "idx_a", Parts: []Part{{Col: "a"}}}) }},
 	{Name: "uq_b", Group: "bidx", Apply: func(d *DB) {
 		t := d.Table("t")
